@@ -101,10 +101,15 @@ def execute(script, outlen_mode, as_path, tmp, tag, check_first=0):
     obs['calls'] = calls
     obs['events'] = list(events)
     if out is not None:
-        obs['len'] = len(out)
-        obs['rows'] = [np.asarray(out.samples[i]).tolist() for i in range(len(out))]
-        obs['ids'] = [int(x) for x in np.asarray(out.id).reshape(-1)] if len(out) else []
-        obs['pt'] = np.asarray(out.plaintext).reshape(len(out), -1).tolist() if len(out) else []
+        try:
+            obs['len'] = len(out)
+            obs['rows'] = [np.asarray(out.samples[i]).tolist() for i in range(len(out))]
+            obs['ids'] = [int(x) for x in np.asarray(out.id).reshape(-1)] if len(out) else []
+            obs['pt'] = np.asarray(out.plaintext).reshape(len(out), -1).tolist() if len(out) else []
+            if len(obs['ids']) != obs['len'] or len(obs['pt']) != obs['len']:
+                obs['inconsistent'] = f'{obs["len"]} sample rows, {len(obs["ids"])} ids, {len(obs["pt"])} plaintexts'
+        except Exception as ex:
+            obs['inconsistent'] = f'{type(ex).__name__}: {ex}'[:200]
     before = (int(s.processed_counter), int(s.synchronized_counter))
     try:
         s.run()
@@ -138,6 +143,8 @@ def judge(e, obs):
         return f'processed/synchronized counters equal the number of inputs / accepted traces (got {obs["processed"]}/{obs["synchronized"]}, specification {e["processed"]}/{e["synchronized"]})'
     if obs['calls'] != list(range(n)):
         return 'the user function is called once per input trace, in order'
+    if obs.get('inconsistent'):
+        return f'the output set holds one trace (samples and metadata) per accepted input ({obs["inconsistent"]})'
     if e['out']:
         if 'len' not in obs:
             return f'run() returns the output set when traces were accepted ({obs["error"]})'
@@ -184,7 +191,7 @@ def run(chk):
                 bad = judge(e, obs)
                 if len(RECORDED) < 4000:
                     RECORDED.append(({'ev': obs['events'], 'final': {'processed': obs['processed'], 'synchronized': obs['synchronized'],
-                                                                     'out': [i - 99 for i in obs.get('ids', [])]}}, script, mode))
+                                                                     'out': [i - 99 for i in obs.get('ids', [])][:obs.get('len', 0)]}}, script, mode))
                 mixed = ('A' in script and any(x != 'A' for x in script)) or 'A' not in script
                 chk.count((tuple(script), mode, as_path, bool(e.get('checked'))), nontrivial=mixed)
                 chk.traces_validated += 1
